@@ -1105,6 +1105,13 @@ def call_method(it, v, name, args, kwargs):
                 return getattr(v, name)(*args, **kwargs)
             except Exception as e:
                 raise Raised(ExcObj(type(e), e.args))
+    from .interp import class_info_of
+    ci = class_info_of(type(v))
+    if ci is not None:
+        m = ci.find_method(name)
+        if m is not None:
+            # native instance of a repository class (module-level object): interpret its method
+            return it.call_function(m, [v] + list(args), kwargs)
     if is_concrete(v) and is_concrete(args) and is_concrete(kwargs):
         mod = type(v).__module__.split('.')[0]
         if mod in PURE_MODULES or isinstance(v, (re.Match,)):
